@@ -26,21 +26,17 @@ theorem wf_asgS {s : State} (hw : WF s) {d x : Nat} (hc : check s (.asgS d x) = 
       · rw [if_neg hsame] at he ⊢
         have hsame' : (repOf s d == repOf s x) = false := by rw [hXr]; simpa using hsame
         simp only [hsame'] at hc
-        obtain ⟨hk, hp⟩ := replaceCheck_none hc
         by_cases hemp : emptyVar s x = true
-        · simp only [hemp, if_true] at he ⊢
-          exact wf_deleteRepWithCheck hw (fun h => (hk h).1) he
+        · simp only [hemp, if_true] at he hc ⊢
+          exact wf_deleteRepWithCheck hw (deleteCheck_none hc) he
         · rw [if_neg hemp] at he ⊢
           cases hr : X.rep with
           | none => exact hw
           | some r =>
             simp only [hr] at he ⊢
-            rw [err_modSlot] at he
             obtain ⟨R, hR⟩ := hw.inv.repAlive x r (by rw [hXr]; exact hr)
             obtain ⟨N, -, hF⟩ := fresh_cloneRep hw hR
-            have hemp' : (!emptyVar s x) = true := by simpa using hemp
-            exact wf_modSlot_blocked
-              (wf_exchange_fresh hw hF hd (fun h => (hk h).1) (hp hemp') he) d _
+            exact wf_exchange_fresh (fresh_modSlot_blocked hF d _) hd he
 
 theorem wf_masgS {s : State} (hw : WF s) {d x : Nat} (hc : check s (.masgS d x) = none)
     (he : (apply (.masgS d x) s).err = false) : WF (apply (.masgS d x) s) := by
@@ -61,12 +57,10 @@ theorem wf_masgS {s : State} (hw : WF s) {d x : Nat} (hc : check s (.masgS d x) 
       · rw [if_neg hsame] at he ⊢
         have hsame' : (repOf s d == repOf s x) = false := by rw [hXr]; simpa using hsame
         simp only [hsame'] at hc
-        obtain ⟨hk, hp⟩ := replaceCheck_none hc
         by_cases hemp : emptyVar s x = true
-        · simp only [hemp, if_true] at he ⊢
-          exact wf_deleteRepWithCheck hw (fun h => (hk h).1) he
+        · simp only [hemp, if_true] at he hc ⊢
+          exact wf_deleteRepWithCheck hw (deleteCheck_none hc) he
         · rw [if_neg hemp] at he ⊢
-          have hemp' : (!emptyVar s x) = true := by simpa using hemp
           cases hr : X.rep with
           | none => exact hw
           | some r =>
@@ -82,24 +76,19 @@ theorem wf_masgS {s : State} (hw : WF s) {d x : Nat} (hc : check s (.masgS d x) 
               intro w; rw [← hs0]; exact repOf_modSlot_blocked s d _ w
             have hreps0 : s0.reps = s.reps := by rw [← hs0]; exact reps_modSlot _ _ _
             have hnext0 : s0.nextRep = s.nextRep := by rw [← hs0]; exact nextRep_modSlot _ _ _
-            have hk0 : ownKind s0 d = true → ownedBy s0 d = false := by
-              rw [(ht d).1, (ht d).2.2.2.2.1]; exact fun h => (hk h).1
-            have hp0 : hasParent s0 d = true → ownKind s0 d = false ∧ selfParent s0 d = false := by
-              rw [(ht d).1, (ht d).2.1, (ht d).2.2.1]; exact hp hemp'
-            have hd0 : (s0.slots d).isSome = true := by rw [(ht d).2.2.2.2.2]; exact hd
+            have hd0 : (s0.slots d).isSome = true := by rw [(ht d).2.2.2.2]; exact hd
+            have hR0 : s0.reps r = some R := by rw [hreps0]; exact hR
             by_cases hpar : hasParent s x = true
             · simp only [hpar, if_true] at he ⊢
-              have hR0 : s0.reps r = some R := by rw [hreps0]; exact hR
               obtain ⟨N, -, hF⟩ := fresh_cloneRep hw0 hR0
               rw [← hnext0] at he ⊢
-              exact wf_exchange_fresh hw0 hF hd0 hk0 hp0 he
+              exact wf_exchange_fresh hF hd0 he
             · rw [if_neg hpar] at he ⊢
               have hRp : R.parent = none := by
                 cases hpp : R.parent with
                 | none => rfl
                 | some p => exact absurd ((hasParent_iff s x).mpr ⟨r, R, p, hrx, hR, hpp⟩) hpar
-              have hR0 : s0.reps r = some R := by rw [hreps0]; exact hR
-              obtain ⟨h1, h2, h3, h4, h5, h6, h7⟩ := moveOut_pre hw0 (by rw [hrep0]; exact hrx) hR0 hRp
+              obtain ⟨h1, h2, h3, h4, h5, h6, -⟩ := moveOut_pre hw0 (by rw [hrep0]; exact hrx) hR0 hRp
               have hdx : d ≠ x := by
                 intro hdx; subst hdx
                 rw [hXr] at hsame'; simp at hsame'
@@ -108,35 +97,7 @@ theorem wf_masgS {s : State} (hw : WF s) {d x : Nat} (hc : check s (.masgS d x) 
                 cases hh : s0.slots d with
                 | none => rw [hh] at hd0; simp at hd0
                 | some D => exact ⟨D, rfl⟩
-              refine wf_exchange h1 h2 h3 h4 hRp h5 hdM ?_ he
-              intro q Q hq hQ
-              have hqs : repOf s0 d = some q := by
-                rw [repOf_eq] at hq ⊢
-                obtain ⟨V, hV, hVr⟩ := hq
-                exact ⟨V, by rw [← h6 d hdx]; exact hV, hVr⟩
-              have hqr : q ≠ r := fun h => by subst h; exact h5 d hq
-              have hQs : s0.reps q = some Q := by rw [← h7 q hqr]; exact hQ
-              constructor
-              · rintro ⟨fid, h, t, hf⟩
-                left
-                have hkd : ownKind s0 d = true := (ownKind_iff s0 d).mpr ⟨q, Q, fid, h, t, hqs, hQs, hf⟩
-                intro ⟨y, Y, fid', t', hY, hf'⟩
-                have : Owned s0 d := by
-                  by_cases hyr : y = r
-                  · subst hyr; rw [h4] at hY; cases hY; exact ⟨y, R, fid', t', hR0, hf'⟩
-                  · rw [h7 y hyr] at hY; exact ⟨y, Y, fid', t', hY, hf'⟩
-                rw [(ownedBy_iff hw0.inv.repBound d).mpr this] at hk0
-                exact absurd (hk0 hkd) (by simp)
-              · intro p hpp
-                right
-                have hhp : hasParent s0 d = true := (hasParent_iff s0 d).mpr ⟨q, Q, p, hqs, hQs, hpp⟩
-                obtain ⟨hk1, hs1⟩ := hp0 hhp
-                refine ⟨?_, ?_⟩
-                · intro hpq; subst hpq
-                  rw [(selfParent_iff s0 d).mpr ⟨p, Q, hqs, hQs, hpp⟩] at hs1; simp at hs1
-                · rintro ⟨fid, h, t, hf⟩
-                  rw [(ownKind_iff s0 d).mpr ⟨q, Q, fid, h, t, hqs, hQs, hf⟩] at hk1
-                  simp at hk1
+              exact wf_exchange h1 h2 h3 h4 hRp rfl h5 hdM he
 
 theorem wf_setS {s : State} (hw : WF s) {d : Nat} {f : Fun} (hc : check s (.setS d f) = none)
     (he : (apply (.setS d f) s).err = false) : WF (apply (.setS d f) s) := by
@@ -145,25 +106,20 @@ theorem wf_setS {s : State} (hw : WF s) {d : Nat} {f : Fun} (hc : check s (.setS
   · simp at hc
   · rename_i hdead
     have hd := isSome_of_not_dead (by simpa using hdead)
-    split at hc
-    · simp at hc
-    · rename_i hspec
-      obtain ⟨hk, hp⟩ := replaceCheck_none hc
-      have hF := fresh_modSlot_blocked (fresh_allocBind hw true (funOk_of_spec hw.inv hspec)) d false
-      exact wf_exchange_fresh hw hF hd (fun h => (hk h).1) (hp rfl) he
+    have hF := fresh_modSlot_blocked (fresh_allocBind hw true (funOk_of_spec hw.inv hc)) d false
+    exact wf_exchange_fresh hF hd he
 
 theorem wf_clrS {s : State} (hw : WF s) {d : Nat} (hc : check s (.clrS d) = none)
     (he : (apply (.clrS d) s).err = false) : WF (apply (.clrS d) s) := by
   simp only [check] at hc
   split at hc
   · simp at hc
-  · obtain ⟨hk, -⟩ := replaceCheck_none hc
-    simp only [apply] at he ⊢
+  · simp only [apply] at he ⊢
     split
     · exact wf_modSlot_blocked hw d false
     · rename_i r hr
       simp only [hr] at he
-      exact wf_deleteRepWithCheck hw (fun h => (hk h).1) he
+      exact wf_deleteRepWithCheck hw (deleteCheck_none hc) he
 
 /-! ### connections, continued -/
 
@@ -202,7 +158,7 @@ theorem wf_connOps {s : State} (hw : WF s) (op : Op) (hc : check s op = none)
     split
     · exact wf_setConn_none hw hj _ (.inr rfl)
     · rename_i v hv
-      obtain ⟨r, R, hr, -, -⟩ := hI.connReg i v (connTarget_eq.mp hv)
+      obtain ⟨r, R, hr, -, -⟩ := hw.connReg' (connTarget_eq.mp hv)
       exact wf_attach hw hj ⟨r, hr⟩
   · -- asgC
     simp only [apply]
@@ -215,7 +171,7 @@ theorem wf_connOps {s : State} (hw : WF s) (op : Op) (hc : check s op = none)
       split
       · exact wf_setConn_none hw1 hd1 _ (.inr rfl)
       · rename_i v hv
-        obtain ⟨r, R, hr, -, -⟩ := hI.connReg x v (connTarget_eq.mp hv)
+        obtain ⟨r, R, hr, -, -⟩ := hw.connReg' (connTarget_eq.mp hv)
         exact wf_attach hw1 hd1 ⟨r, by rw [hrep1]; exact hr⟩
     cases hd : connTarget s d with
     | none =>
@@ -316,7 +272,7 @@ theorem apply_wf {s : State} (hw : WF s) (op : Op) (hc : check s op = none)
   | bad => exact hw
 
 theorem wf_init : WF State.init := by
-  refine ⟨⟨?_, ?_, ?_, ?_, ?_, ?_, ?_, ?_, ?_, ?_, ?_, ?_⟩, ?_, ?_⟩ <;>
+  refine ⟨⟨?_, ?_, ?_, ?_, ?_, ?_, ?_, ?_, ?_, ?_, ?_, ?_, ?_⟩, ?_, ?_⟩ <;>
     simp [State.init, repOf, Idle, Held]
 
 /-- one step of the language keeps the state well-formed -/
